@@ -290,6 +290,7 @@ pub fn gen_layout(r: &mut Rng, pool: &[KeyInfo]) -> LayoutMetadata {
         ids.push(pk.key_id().clone());
         b = b.add_key(pk);
     }
+    let mut steps = vec![];
     for n in &names {
         let mut s = Step::new(n)
             .threshold(*r.pick(&[0u32, 1, 1, 2, 3, u32::MAX]))
@@ -301,14 +302,38 @@ pub fn gen_layout(r: &mut Rng, pool: &[KeyInfo]) -> LayoutMetadata {
                 s = s.add_key(id.clone());
             }
         }
-        b = b.add_step(s);
+        steps.push(s);
     }
+    let mut insps = vec![];
     for i in 0..r.below(3) {
         let insp = Inspection::new(&format!("inspect{}", i))
             .run(gen_command(r))
             .expected_materials(gen_rules(r, &names))
             .expected_products(gen_rules(r, &names));
-        b = b.add_inspect(insp);
+        insps.push(insp);
+    }
+    // every way the builder takes steps and inspections: one by one, all at once, appended in bulk
+    match r.below(4) {
+        0 => b = b.steps(steps),
+        1 => b = b.add_steps(steps),
+        2 if steps.len() >= 2 => {
+            let rest = steps.split_off(1);
+            b = b.add_step(steps.remove(0)).add_steps(rest);
+        }
+        _ => {
+            for s in steps {
+                b = b.add_step(s);
+            }
+        }
+    }
+    match r.below(3) {
+        0 => b = b.inspects(insps),
+        1 => b = b.add_inspects(insps),
+        _ => {
+            for i in insps {
+                b = b.add_inspect(i);
+            }
+        }
     }
     b.build().unwrap()
 }
